@@ -39,6 +39,26 @@ type c17Transition struct {
 	to     string
 	lit    *ast.FuncLit
 	fromEx ast.Expr
+	body   *an.Fn // the transition function: the literal, or the method/function whose value is passed
+}
+
+// contains: node lies in the transition function's body.
+func (t c17Transition) contains(n ast.Node) bool {
+	if t.lit != nil {
+		return an.InNode(t.lit, n)
+	}
+	if t.body != nil && t.body.Decl != nil {
+		return an.InNode(t.body.Decl, n)
+	}
+	return false
+}
+
+// bodyFn returns the Fn of the transition function.
+func (t c17Transition) bodyFn() *an.Fn {
+	if t.lit != nil {
+		return t.in.Root().LitFn(t.lit)
+	}
+	return t.body
 }
 
 func runC17(c *core.Ctx) {
@@ -106,6 +126,20 @@ func runC17(c *core.Ctx) {
 			t := c17Transition{call: call, in: call.In, to: call.In.ConstName(call.Expr.Args[1]), fromEx: call.Expr.Args[0]}
 			if lit, ok := an.Unparen(call.Expr.Args[2]).(*ast.FuncLit); ok {
 				t.lit = lit
+			} else {
+				// a method value (b.enteredRunning) or a function name of this package
+				var fo *types.Func
+				switch x := an.Unparen(call.Expr.Args[2]).(type) {
+				case *ast.SelectorExpr:
+					if call.In.Canon(x.X) == "recv" {
+						fo, _ = call.In.Info().Uses[x.Sel].(*types.Func)
+					}
+				case *ast.Ident:
+					fo, _ = call.In.Info().Uses[x].(*types.Func)
+				}
+				if fo != nil && fo.Pkg() == pkg.Types {
+					t.body = an.FnOf(c.Prog.ByPath, fo)
+				}
 			}
 			if cn := call.In.ConstName(call.Expr.Args[0]); cn != "" {
 				t.from = []string{cn}
@@ -354,18 +388,18 @@ func fieldWriters(pkg *packages.Package, fld *types.Var) map[string][]token.Pos 
 
 func c17Closure(c *core.Ctx, t c17Transition) {
 	key := "closure:" + strings.Join(t.from, "|") + "→" + t.to
-	if t.lit == nil {
-		c.Undec("R2", key, t.call.Expr.Pos(), "transition function is not a literal")
+	if t.lit == nil && t.body == nil {
+		c.Undec("R2", key, t.call.Expr.Pos(), "transition function is neither a literal nor a method/function of this package")
 		return
 	}
-	lf := t.in.Root().LitFn(t.lit)
+	lf := t.bodyFn()
 	if lf == nil {
 		c.Undec("R2", key, t.call.Expr.Pos(), "literal not found")
 		return
 	}
 	notes := lf.CallsTo(false, "services", "(*BasicService).notifyListeners")
 	if len(notes) != 1 {
-		c.Viol("R2", key, t.lit.Pos(), fmt.Sprintf("transition closure must call notifyListeners exactly once, found %d", len(notes)))
+		c.Viol("R2", key, lf.Pos(), fmt.Sprintf("transition closure must call notifyListeners exactly once, found %d", len(notes)))
 		return
 	}
 	n := notes[0]
@@ -506,7 +540,7 @@ func c17Main(c *core.Ctx, main *an.Fn, pkg interface{}, trans []c17Transition) {
 				spawns++
 				inStart := false
 				for _, t := range trans {
-					if t.to == "Starting" && len(t.from) == 1 && t.from[0] == "New" && t.lit != nil && an.InNode(t.lit, gs) {
+					if t.to == "Starting" && len(t.from) == 1 && t.from[0] == "New" && t.contains(gs) {
 						inStart = true
 					}
 				}
@@ -576,7 +610,7 @@ func c17Main(c *core.Ctx, main *an.Fn, pkg interface{}, trans []c17Transition) {
 			if cn == "recv.runningWaitersCh" || cn == "recv.terminatedWaitersCh" {
 				inTrans := false
 				for _, t := range trans {
-					if t.lit != nil && an.InNode(t.lit, call.Expr) {
+					if t.contains(call.Expr) {
 						inTrans = true
 					}
 				}
@@ -637,10 +671,7 @@ func c17Main(c *core.Ctx, main *an.Fn, pkg interface{}, trans []c17Transition) {
 // closesIn counts the closes of the two waiter channels executed by a transition closure when the
 // watched variable holds val.
 func closesIn(fn *an.Fn, t c17Transition, watched types.Object, val string) (running, terminated int, ok bool) {
-	if t.lit == nil {
-		return 0, 0, false
-	}
-	lf := fn.Root().LitFn(t.lit)
+	lf := t.bodyFn()
 	if lf == nil {
 		return 0, 0, false
 	}
